@@ -1784,3 +1784,257 @@ CATALOGUE['C11'] = [
                                               sz, orphan, sequence)
                     pkw['next-sequence'] = 1"""),
 ]
+
+# --------------------------------------------------------------------- C01
+CATALOGUE['C01'] = [
+    V('eol also eats other whitespace', 'DT_String.py',
+      "eol=re.compile('[ \\t]*\\n')", "eol=re.compile('\\\\s*\\n')",
+      'C01.R1'),
+    V('eol optional newline', 'DT_String.py',
+      "eol=re.compile('[ \\t]*\\n')", "eol=re.compile('[ \\t]*\\n?')",
+      'C01.R1'),
+    V('eol searched, not matched', 'DT_String.py',
+      "        mo = eol.match(text, start)", "        mo = eol.search(text, start)",
+      'C01.R1'),
+    V('eol eats two line ends', 'DT_String.py',
+      "eol=re.compile('[ \\t]*\\n')", "eol=re.compile('([ \\t]*\\n){1,2}')",
+      'C01.R1'),
+    V('cursor advanced one too far', 'DT_String.py',
+      "            start = start + mo.end(0) - mo.start(0)",
+      "            start = start + mo.end(0) - mo.start(0) + 1", 'C01.R1'),
+    V('line end skipped after every tag', 'DT_String.py',
+      """                    result.append(r)
+                except ParseError as m:
+                    self.parse_error(m.args[0], tag, text, l_)
+""",
+      """                    result.append(r)
+                    start = self.skip_eol(text, start)
+                except ParseError as m:
+                    self.parse_error(m.args[0], tag, text, l_)
+""", 'C01.R2'),
+    V('line end skipped at template start', 'DT_String.py',
+      """        if tagre is None:
+            tagre = self.tagre()
+        mo = tagre.search(text, start)""",
+      """        if tagre is None:
+            tagre = self.tagre()
+            start = self.skip_eol(text, start)
+        mo = tagre.search(text, start)""", 'C01.R2'),
+    V('literal text stripped', 'DT_String.py',
+      """            s = text[start:l_]
+            if s:
+                result.append(s)""",
+      """            s = text[start:l_].strip()
+            if s:
+                result.append(s)""", 'C01.R3'),
+    V('whitespace-only text dropped', 'DT_String.py',
+      """            s = text[start:l_]
+            if s:
+                result.append(s)""",
+      """            s = text[start:l_]
+            if s.strip():
+                result.append(s)""", 'C01.R3'),
+    V('trailing text loses carriage returns', 'DT_String.py',
+      """        text = text[start:]
+        if text:
+            result.append(text)""",
+      """        text = text[start:].replace('\\r', '')
+        if text:
+            result.append(text)""", 'C01.R3'),
+    V('renderer strips literal blocks', '_DocumentTemplate.py',
+      """        elif not isinstance(block, (str, bytes)):
+            block = block(md)
+""",
+      """        elif not isinstance(block, (str, bytes)):
+            block = block(md)
+        else:
+            block = block.rstrip(' ')
+""", 'C01.R3'),
+    V('pieces joined in reverse', '_DocumentTemplate.py',
+      "    return join_unicode(rendered, encoding=encoding)",
+      "    return join_unicode(list(reversed(rendered)), encoding=encoding)",
+      'C01.R3'),
+    V('dtml prefix width', 'DT_HTML.py',
+      "            elif text[s:s + 6] == '<dtml-':",
+      "            elif text[s:s + 5] == '<dtml-':", 'C01.R4'),
+    V('name offset after </dtml-', 'DT_HTML.py',
+      """            elif text[s:s + 7] == '</dtml-':
+                e = n = s + 7""",
+      """            elif text[s:s + 7] == '</dtml-':
+                e = n = s + 6""", 'C01.R4'),
+    # silent
+    V('silent: pattern built by concatenation', 'DT_String.py',
+      "eol=re.compile('[ \\t]*\\n')", "eol=re.compile('[ \\t]*' + '\\n')"),
+    V('silent: mo.end(0) form', 'DT_String.py',
+      "            start = start + mo.end(0) - mo.start(0)",
+      "            start = mo.end(0)"),
+]
+
+# --------------------------------------------------------------------- C07
+CATALOGUE['C07'] = [
+    V('HTML gets its own skip_eol', 'DT_HTML.py',
+      """    @security.private
+    def SubTemplate(self, name):
+        return HTML('', __name__=name)""",
+      """    @security.private
+    def skip_eol(self, text, start):
+        return start
+
+    @security.private
+    def SubTemplate(self, name):
+        return HTML('', __name__=name)""", 'C07.R1'),
+    V('HTMLFile overrides parse', 'DT_HTML.py',
+      """    @security.private
+    def manage_default(self, REQUEST=None):""",
+      """    @security.private
+    def parse(self, text, start=0, result=None, tagre=None):
+        return HTML.parse(self, text.lstrip(), start, result, tagre)
+
+    @security.private
+    def manage_default(self, REQUEST=None):""", 'C07.R1'),
+    V('else compatibility whitespace differs in one reader', 'DT_HTML.py',
+      "                        sargs[l_:l_ + 1] in ' \\t\\n'):",
+      "                        sargs[l_:l_ + 1] in ' \\t'):", 'C07.R2'),
+    V('SGML reader swallows unknown tags', 'DT_HTML.py',
+      """        try:
+            return tag, args, self.commands[name], None
+        except KeyError:
+            raise ParseError('Unexpected tag', tag)""",
+      """        try:
+            return tag, args, self.commands[name], None
+        except KeyError:
+            raise ParseError('Unknown tag', tag)""", 'C07.R2'),
+    V('SGML end tag needs no matching name', 'DT_HTML.py',
+      """        if end:
+            if not command or name != command.name:
+                raise ParseError('unexpected end tag', tag)""",
+      """        if end:
+            if not command:
+                raise ParseError('unexpected end tag', tag)""", 'C07.R2'),
+    V('scanner misnames a group', 'DT_HTML.py',
+      """        d[2] = d['name'] = name
+        d[3] = d['args'] = args
+        self._start = s
+        return self""",
+      """        d[2] = d['nam'] = name
+        d[3] = d['args'] = args
+        self._start = s
+        return self""", 'C07.R3'),
+    V('entity path forgets the offset', 'DT_HTML.py',
+      """                                    d[3] = d['args'] = args + ' html_quote'
+                                    self._start = s
+                                    return self""",
+      """                                    d[3] = d['args'] = args + ' html_quote'
+                                    return self""", 'C07.R3'),
+    V('EPFS reader reads a missing group', 'DT_String.py',
+      "tag, name, args, fmt = match_ob.group(0, 'name', 'args', 'fmt')",
+      "tag, name, args, fmt = match_ob.group(0, 'name', 'args', 'format')",
+      'C07.R3'),
+    V('entity compiled as call', 'DT_HTML.py',
+      """                                    d[2] = d['name'] = 'var'
+                                    d[0] = text[s:e + 1]
+                                    d[3] = d['args'] = args + ' html_quote'""",
+      """                                    d[2] = d['name'] = 'call'
+                                    d[0] = text[s:e + 1]
+                                    d[3] = d['args'] = args + ' html_quote'""",
+      'C07.R4'),
+    V('SGML var gets a C format', 'DT_HTML.py',
+      """    def varExtra(self, match_ob):
+        return 's'""",
+      """    def varExtra(self, match_ob):
+        return match_ob.group('end') or 's'""", 'C07.R4'),
+    # silent
+    V('silent: UI method added to HTML', 'DT_HTML.py',
+      """    @security.private
+    def SubTemplate(self, name):
+        return HTML('', __name__=name)""",
+      """    @security.private
+    def preview(self):
+        return str(self)
+
+    @security.private
+    def SubTemplate(self, name):
+        return HTML('', __name__=name)"""),
+]
+
+# --------------------------------------------------------------------- C20
+CATALOGUE['C20'] = [
+    V('decoder forgets the translation', 'TreeTag.py',
+      "    state = state.translate(tminus)\n    l_ = len(state)",
+      "    l_ = len(state)", 'C20.R1'),
+    V('decoder translates with the encoder table', 'TreeTag.py',
+      "    state = state.translate(tminus)\n    l_ = len(state)",
+      "    state = state.translate(tplus)\n    l_ = len(state)", 'C20.R1'),
+    V('tables not inverse', 'TreeTag.py',
+      "tminus = tbl[:ord('-')] + b'+' + tbl[ord('-') + 1:]",
+      "tminus = tbl[:ord('_')] + b'+' + tbl[ord('_') + 1:]", 'C20.R1'),
+    V('decompress uses latin-1', 'TreeTag.py',
+      "    return zlib.decompress(input).decode('utf-8')",
+      "    return zlib.decompress(input).decode('latin-1')", 'C20.R1'),
+    V('encoder skips compression', 'TreeTag.py',
+      "    state = compress(json.dumps(state))\n    l_ = len(state)",
+      "    state = json.dumps(state).encode('utf-8')\n    l_ = len(state)",
+      'C20.R1'),
+    V('encoder chunk 60 in encode_seq only', 'TreeTag.py',
+      """    state = compress(json.dumps(state))
+    l_ = len(state)
+
+    if l_ > 57:
+        states = []
+        for i in range(0, l_, 57):
+            states.append(b2a_base64(state[i:i + 57])[:-1])""",
+      """    state = compress(json.dumps(state))
+    l_ = len(state)
+
+    if l_ > 60:
+        states = []
+        for i in range(0, l_, 60):
+            states.append(b2a_base64(state[i:i + 60])[:-1])""", 'C20.R2'),
+    V('decoder chunk 72', 'TreeTag.py',
+      """    if l_ > 76:
+        states = []
+        j = 0
+        for i in range(l_ // 76):
+            k = j + 76""",
+      """    if l_ > 72:
+        states = []
+        j = 0
+        for i in range(l_ // 72):
+            k = j + 72""", 'C20.R2'),
+    V('encode_str slice width differs from its step', 'TreeTag.py',
+      """        raise ValueError("state should be bytes")
+
+    l_ = len(state)
+
+    if l_ > 57:
+        states = []
+        for i in range(0, l_, 57):
+            states.append(b2a_base64(state[i:i + 57])[:-1])""",
+      """        raise ValueError("state should be bytes")
+
+    l_ = len(state)
+
+    if l_ > 57:
+        states = []
+        for i in range(0, l_, 57):
+            states.append(b2a_base64(state[i:i + 54])[:-1])""", 'C20.R2'),
+    V('encode_str strips at the last =', 'TreeTag.py',
+      """    # state is still bytes, but all in 'ascii' encoding.
+    l_ = state.find(b'=')
+    if l_ >= 0:
+        state = state[:l_]
+
+    state = state.translate(tplus)
+    return state""",
+      """    # state is still bytes, but all in 'ascii' encoding.
+    l_ = state.rfind(b'=')
+    if l_ >= 0:
+        state = state[:l_]
+
+    state = state.translate(tplus)
+    return state""", 'C20.R3'),
+    # silent
+    V('silent: comment / docstring change', 'TreeTag.py',
+      '    """Convert a sequence to an encoded string"""',
+      '    """Convert a state sequence to its encoded text"""'),
+]
